@@ -223,22 +223,32 @@ def r5_constructors(report, repo):
     bad = {}
     n = 0
     c = it.class_of(cls)
-    for mn, mx, mmn, mmx in itertools.product(vals, repeat=4):
+    combos = list(itertools.product(vals, repeat=4))
+    # one limit given as a string (a with_args template / a value for the type
+    # converter): it takes part in no ordering check, the numeric limits are
+    # still checked against each other
+    for pos in range(4):
+      for rest in itertools.product(vals, repeat=3):
+        t = list(rest)
+        t.insert(pos, '{tmpl}')
+        combos.append(tuple(t))
+    num = lambda x: isinstance(x, int)
+    for mn, mx, mmn, mmx in combos:
       n += 1
       reasons = []
       if mn is None and mx is None:
         reasons.append('no-bound')
-      if mn is not None and mx is not None and mn > mx:
+      if num(mn) and num(mx) and mn > mx:
         reasons.append('min>max')
       if mmn is not None and mn is None:
         reasons.append('marginal-min-without-min')
       if mmx is not None and mx is None:
         reasons.append('marginal-max-without-max')
-      if mmn is not None and mn is not None and mn > mmn:
+      if num(mmn) and num(mn) and mn > mmn:
         reasons.append('marginal-min-below-min')
-      if mmx is not None and mx is not None and mx < mmx:
+      if num(mmx) and num(mx) and mx < mmx:
         reasons.append('marginal-max-above-max')
-      if mmn is not None and mmx is not None and mmn > mmx:
+      if num(mmn) and num(mmx) and mmn > mmx:
         reasons.append('marginal-min>marginal-max')
       try:
         it.steps = 0
